@@ -19,7 +19,18 @@ post-loss behaviour of the library (documented at `Link._postloss`).  Auxiliary 
 Nothing here knows what scrapli *should* do: results are only classified (`classify`)."""
 import asyncio, contextlib, errno, os, socket, sys, types
 
-OUTCOMES = ["data", "more", "empty", "eof", "epipe", "eio", "reset", "refused", "unreach", "timeout", "liberr", "liberr2", "none"]
+OUTCOMES = ["data", "more", "empty", "eof", "epipe", "eio", "reset", "refused", "unreach", "timeout", "liberr", "liberr2", "none",
+            "dataIac", "dataIacVerb", "moreIac", "moreIacVerb"]
+# data-like outcomes (the call delivers bytes).  The *Iac / *IacVerb variants (Telnet transports only): the chunk ends strictly
+# inside a 3-byte Telnet command — after IAC, after IAC + verb — so the transport is left with a pending control sequence.
+DATA_LIKE = ("data", "more", "dataIac", "dataIacVerb", "moreIac", "moreIacVerb")
+TELNETS = ("telnet", "asynctelnet")
+CTRLS = ["c0", "cIac", "cIacVerb"]          # state of the Telnet control buffer: empty / IAC / IAC + verb
+IAC, DO_, WILL_ = b"\xff", b"\xfd", b"\xfb"
+
+
+def pend_of(o):
+    return 1 if o in ("dataIac", "moreIac") else 2 if o in ("dataIacVerb", "moreIacVerb") else 0
 METHODS = ["open", "openHs", "openAuth", "openChan", "read", "write", "isalive", "close"]
 TRANSPORTS = ["system", "telnet", "asynctelnet", "paramiko", "asyncssh", "sim"]
 ASYNC = {"asynctelnet", "asyncssh"}
@@ -33,14 +44,14 @@ ASYNC = {"asynctelnet", "asyncssh"}
 DOMAIN = {
     "telnet": {
         "open": ["data", "refused", "unreach", "timeout"],           # connect(): ECONNREFUSED(*), EHOSTUNREACH/ENETUNREACH, socket.timeout
-        "read": ["data", "more", "empty", "reset", "timeout"],       # recv(): bytes, b"" after FIN(*), ECONNRESET(*), socket.timeout after timeout_socket(*)
+        "read": ["data", "more", "dataIac", "dataIacVerb", "moreIac", "moreIacVerb", "empty", "reset", "timeout"],       # recv(): bytes, b"" after FIN(*), ECONNRESET(*), socket.timeout after timeout_socket(*)
         "write": ["data", "epipe", "reset", "timeout"],              # send(): EPIPE(*), ECONNRESET(*), socket.timeout with a full send buffer
         "isalive": ["data", "epipe", "reset"],                       # send(b""): 0(*), EPIPE(*), ECONNRESET(*)
         "close": ["data"],
     },
     "asynctelnet": {
         "open": ["data", "refused", "unreach", "timeout", "reset"],  # open_connection(): OSError family, wait_for timeout
-        "read": ["data", "more", "empty", "reset", "epipe", "timeout"],  # StreamReader.read(): b"" at EOF(*), the exception of connection_lost(exc): ECONNRESET(*), EPIPE(*), ETIMEDOUT
+        "read": ["data", "more", "dataIac", "dataIacVerb", "moreIac", "moreIacVerb", "empty", "reset", "epipe", "timeout"],  # StreamReader.read(): b"" at EOF(*), the exception of connection_lost(exc): ECONNRESET(*), EPIPE(*), ETIMEDOUT
         "write": ["data"],                                           # StreamWriter.write() never raises on a lost connection(*)
         "isalive": ["data", "empty"],                                # at_eof(): False / True
         "close": ["data"],
@@ -163,6 +174,10 @@ def exc_for(t, o):
     return None
 
 
+class _PreIac(Exception):
+    pass
+
+
 class WouldBlock(BaseException):
     """the real library call would block here forever (no bytes will come) — logic runs only"""
 
@@ -198,6 +213,10 @@ class Link:
         self.method = None              # scrapli transport method currently executing (set by the harness)
         self.killed = False
         self.closed = False
+        self.fault_pre_done = False
+        self.pend = 0                   # Telnet control bytes delivered so far that do not form a complete command yet (0, 1, 2)
+        self.pre_iac = b""              # bytes to deliver alone right before the faulted read's outcome
+        self.neg = []                   # option negotiation replies the transport wrote (never scripted, never counted)
 
     # -- what does the next primary call of `kind` get?
     def outcome(self, kind):
@@ -206,13 +225,18 @@ class Link:
         elif self.fault is not None and kind in ("read", "write") and self.lost is None and self.nrw == self.fault[0] \
                 and self.fault[1] in (None, kind):
             o = self.fault[2]
+            if kind == "read" and len(self.fault) > 3 and self.fault[3] and not self.fault_pre_done:
+                # the drop happens strictly inside a Telnet command: first the command's first byte(s), alone
+                self.fault_pre_done = True
+                self.pend = self.fault[3]
+                raise _PreIac(IAC if self.fault[3] == 1 else IAC + DO_)
         elif self.lost is not None:
             o = self._postloss(kind)
         else:
             o = "data"
         if kind in ("read", "write"):
             self.nrw += 1
-        if self.lost is None and kind in ("read", "write", "open", "openHs", "openAuth", "openChan") and o not in ("data", "more") \
+        if self.lost is None and kind in ("read", "write", "open", "openHs", "openAuth", "openChan") and o not in DATA_LIKE \
                 and (sets_loss(self.t, o) or kind.startswith("open")) and not (self.t == "sim" and o == "empty"):
             self.lost = (kind, o)               # a socket.timeout fails the call but does not end the session
         self.calls.append((kind, o))
@@ -267,22 +291,38 @@ class Link:
 
     # -- primary calls
     def do_read(self):
-        o = self.outcome("read")
-        if o in ("data", "more"):
+        if self.pre_iac:
+            # the device's last bytes before the drop: IAC / IAC + verb, delivered alone (the Telnet transports then call recv again
+            # inside the same read(): not a primary call of its own)
+            b, self.pre_iac = self.pre_iac, b""
+            self.pend = len(b)
+            return b
+        try:
+            o = self.outcome("read")
+        except _PreIac as p:
+            return p.args[0]
+        if o in DATA_LIKE:
+            # complete a command that an earlier chunk left pending, then the chunk itself, then the new pending prefix
+            head = (DO_ + b"\x01" if self.pend == 1 else b"\x01" if self.pend == 2 else b"") if self.t in TELNETS else b""
+            tail = (IAC if pend_of(o) == 1 else IAC + DO_ if pend_of(o) == 2 else b"") if self.t in TELNETS else b""
+            self.pend = pend_of(o) if self.t in TELNETS else 0
             if self.device is None:
-                return b"x>" if o == "data" else b"x"
+                return head + (b"x>" if o.startswith("data") else b"x") + tail
             if not self.buf:
                 raise WouldBlock()
             chunk = bytes(self.buf)
             self.buf.clear()
-            return chunk
+            return head + chunk + tail
         if o == "empty":
             return b""
         raise exc_for(self.t, o)
 
     def do_write(self, data):
+        if self.t in TELNETS and bytes(data[:1]) == IAC:
+            self.neg.append(bytes(data))        # the transport answering an option negotiation command
+            return len(data)
         o = self.outcome("write")
-        if o in ("data", "more", "empty"):
+        if o in DATA_LIKE or o == "empty":
             if self.device is not None and self.lost is None:
                 self.buf += self.device.on_write(bytes(data))
             return len(data)
@@ -291,7 +331,7 @@ class Link:
     def do_alive(self):
         """primary call of isalive(): True/False, or raises"""
         o = self.outcome("isalive")
-        if o in ("data", "more"):
+        if o in DATA_LIKE:
             return True
         if o == "empty":
             return False
@@ -299,7 +339,7 @@ class Link:
 
     def do_stage(self, kind):
         o = self.outcome(kind)
-        if o in ("data", "more"):
+        if o in DATA_LIKE:
             return True
         if o == "empty":
             return False
@@ -308,7 +348,7 @@ class Link:
     def do_close(self):
         o = self.outcome("close")
         self.closed = True
-        if o in ("data", "more", "empty"):
+        if o in DATA_LIKE or o == "empty":
             return None
         raise exc_for(self.t, o)
 
@@ -786,12 +826,12 @@ def _observe_seq_sim(seq, opened):
             if m == "read":
                 if o in ("empty",):
                     tr.buf.clear()
-                elif o in ("data", "more"):
+                elif o in DATA_LIKE:
                     if not tr.buf:
                         tr.buf += b"x>"
                 elif o != "none":
                     tr.faults = [FaultPlan(at_read=tr.nreads + 1, action="eof" if o == "eof" else exc_for("sim", o))]
-            elif m == "write" and o not in ("data", "more", "none"):
+            elif m == "write" and o not in DATA_LIKE and o != "none":
                 tr.faults = [FaultPlan(at_write=tr.nwrites + 1, action="eof" if o == "eof" else exc_for("sim", o))]
             link = types.SimpleNamespace(method=None)
             acts.append(call("sim", tr, link, m))
@@ -807,7 +847,9 @@ def observe_map():
     for t in TRANSPORTS:
         for m in METHODS:
             for o in OUTCOMES:
-                if m.startswith("open") and o in ("none", "more"):
+                if m.startswith("open") and (o == "none" or o in DATA_LIKE[1:]):
+                    continue
+                if pend_of(o) and (t not in TELNETS or m != "read"):
                     continue
                 if t == "system" and m.startswith("open"):
                     continue          # a real fork/exec: exercised by the pty rig, not by injection
@@ -847,6 +889,37 @@ def observe_alive_after():
                     res[(t, lm, lo)] = observe_seq(t, [(lm, lo), ("isalive", None)])[1]
     return res
 
+
+
+def ctrl_prefix(c):
+    """method sequence that leaves the Telnet control buffer in state c (0 empty, 1 IAC, 2 IAC + verb)"""
+    return [] if c == 0 else [("read", "moreIac" if c == 1 else "moreIacVerb")]
+
+
+def observe_ctrl():
+    """the three tables again, for the Telnet transports, with a control sequence pending (c = 1: IAC, c = 2: IAC + verb) when the
+    call is made:  emapC (c, t, m, o), afterC (c, t, lm, lo, m, o), aliveC (c, t, lm, lo)"""
+    emapC, afterC, aliveC = {}, {}, {}
+    for c in (1, 2):
+        pre = ctrl_prefix(c)
+        n = len(pre)
+        for t in TELNETS:
+            for m in ("read", "write", "isalive", "close"):
+                for o in OUTCOMES:
+                    if o == "none" or (pend_of(o) and m != "read"):
+                        continue
+                    emapC[(c, t, m, o)] = observe_seq(t, pre + [(m, o)])[n]
+            for lm in ("read", "write"):
+                for lo in DOMAIN[t][lm]:
+                    if not is_loss(t, lm, lo):
+                        continue
+                    aliveC[(c, t, lm, lo)] = observe_seq(t, pre + [(lm, lo), ("isalive", None)])[n + 1]
+                    for m in ("read", "write", "close"):
+                        for o in (post_read(t, lm, lo) if m == "read" else DOMAIN[t][m]):
+                            if o == "none":
+                                continue
+                            afterC[(c, t, lm, lo, m, o)] = observe_seq(t, pre + [(lm, lo), (m, o)])[n + 1]
+    return emapC, afterC, aliveC
 
 # ---------------------------------------------------------------------------------------------------
 # real transport + fakes underneath a real driver / channel (program-level runs)
